@@ -152,3 +152,21 @@ where
     // return the barrier function at (z+αdz,s+αds)
     fn compute_barrier(&mut self, z: &[T], s: &[T], dz: &[T], ds: &[T], α: T) -> T;
 }
+
+// verification-only hooks (see /verif); compiled only under the guard cfg
+#[cfg(oxfordcontrol_clarabel_rs_verif)]
+#[allow(missing_docs)]
+pub mod verif_hooks_ns {
+    use crate::algebra::FloatT;
+    pub fn backtrack_search<T: FloatT>(
+        dq: &[T],
+        q: &[T],
+        α_init: T,
+        α_min: T,
+        step: T,
+        is_in_cone_fcn: impl Fn(&[T]) -> bool,
+        work: &mut [T],
+    ) -> T {
+        super::nonsymmetric_common::backtrack_search(dq, q, α_init, α_min, step, is_in_cone_fcn, work)
+    }
+}
